@@ -154,6 +154,9 @@ def run(rep, tier):
     if lib.vacuous_actions(r):
         raise lib.ToolError("vacuous")
     rep.add_tlc("Config", r)
+    # unbounded: TLAPS proves Precedence for ANY set of languages (TLC checks it for two)
+    rep.extra["tlaps"] = {"module": "spec/config/ConfigProof.tla", "theorem": "Spec => [](pcnt = 5 => effective = Documented)",
+                          "obligations_proved": lib.tlaps("config", "ConfigProof")}
     rn = lib.tlc("config", "MC_Config", "config_neg.cfg", workers=4, coverage=False)
     lib.tlc_expect_violation(rn, "command line read before the file", "Precedence")
     rep.extra["negative_models_refuted"] = 1
